@@ -24,7 +24,7 @@ computed by C10's proved digestion model (oracle api pool_multi).
 A disagreement is decided by the property's own statement evaluated on the implementation's
 observations (statement_failures below: a Python dictionary model independent of the Coq model).
 """
-import os, json, glob, hashlib, itertools, random
+import os, json, glob, hashlib, itertools, random, copy
 from harness.lib import oracle as O, impl as I, gen_reference as G, rules as R
 
 PROPERTY = 'C12'
@@ -566,6 +566,114 @@ def run_fly(ctx, n, vio, stats):
                                     'requested parameters' % ([a == b for a, b in zip(got_f, want)], [a == b for a, b in zip(got_i, want)])]))
     return len(cases)
 
+# ----------------------------------------------------------------------------- --reference-source
+def restyle(world, style, chrnames):
+    """a copy of the world as a GENCODE- or ENSEMBL-style reference (ENSEMBL: unversioned ids) on chromosomes named
+    'chr1'.. (the built-in guess says GENCODE) or '1'.. (the guess says ENSEMBL)"""
+    w = copy.deepcopy(world)
+    w['style'] = style
+    if chrnames == 'bare':
+        w['chroms'] = {k[3:] if k.startswith('chr') else k: v for k, v in w['chroms'].items()}
+        for g in w['genes']:
+            if g['chrom'].startswith('chr'):
+                g['chrom'] = g['chrom'][3:]
+    if style == 'ENSEMBL':
+        for g in w['genes']:
+            g['id'] = g['id'].split('.')[0]
+            for t in g['transcripts']:
+                t['id'] = t['id'].split('.')[0]
+                if t.get('protein_id'):
+                    t['protein_id'] = t['protein_id'].split('.')[0]
+    return w
+
+def run_src(ctx, n, vio, stats):
+    """`--reference-source` given explicitly (both values) or not, on references where the built-in guess agrees or
+    disagrees.  Statement: what the index returns (recorded source, per-transcript source and biotype, coding set,
+    proteome, pool) equals what the raw files give under the SAME options; and, when the options describe the files
+    (option = style, or no option and an agreeing guess), the ground truth."""
+    rng = ctx.rng
+    combos = [(st, ch, op) for st in ('GENCODE', 'ENSEMBL') for ch in ('chr', 'bare') for op in (None, 'GENCODE', 'ENSEMBL')]
+    cases = []
+    for i in range(n):
+        style, chrn, opt = combos[i % len(combos)]
+        base = G.gen_world(rng, small=True, coding_p=0.8, bias='KRKRPMWDEFLCHYCKD')
+        w = restyle(base, style, chrn)
+        ps = P('trypsin', 'auto', 2) if i % 3 else P('lysc', 'auto', 1, 6, 30, 300.00005)
+        cases.append(dict(kind='src', world=w, style=style, chrnames=chrn, option=opt, flag=(i % 5 == 2), params=ps,
+                          update=(P('trypsin', 'trypsin_exception', 1) if i % 4 == 1 else None)))
+    res = I.run_cases('c12', cases, jobs=ctx.jobs, tag='c12o')
+    hist, out = {}, {}
+    for c, r in zip(cases, res):
+        guess = 'GENCODE' if c['chrnames'] == 'chr' else 'ENSEMBL'
+        eff = c['option'] or guess                      # the source the run is made under
+        describes = eff == c['style']                   # the options describe the files
+        key = '%s-style/%s names/option %s%s' % (c['style'], c['chrnames'], c['option'], '' if describes else ' (does not describe the files)')
+        hist[key] = hist.get(key, 0) + 1
+        fails = src_failures(c, r, eff, describes)
+        ok = isinstance(r.get('raw'), dict) and 'exc' not in r['raw'] and r.get('gen') == 'ok'
+        k2 = ('describing options' if describes else 'non-describing options') + (': loaded on both routes' if ok else ': rejected on both routes')
+        out[k2] = out.get(k2, 0) + 1
+        if fails:
+            vio['fail'].append((c, fails))
+    stats['src_cases'] = hist
+    stats['src_outcomes'] = out
+    return len(cases)
+
+def src_failures(c, r, eff, describes):
+    if '__exc__' in r:
+        return ['reference-source stream: worker raised %s' % r['__exc__']]
+    f = []
+    ix, raw = r.get('index'), r.get('raw')
+    # same options => same result, also when both fail
+    raw_ok = isinstance(raw, dict) and 'exc' not in raw
+    ix_ok = r['gen'] == 'ok' and isinstance(ix, dict) and 'exc' not in ix
+    if raw_ok != ix_ok:
+        f.append('generateIndex/load through the index: %s / %s, the raw files under the same options: %s' % (
+            r['gen'], (ix or {}).get('exc', 'loaded') if ix is not None else '-', raw.get('exc', 'loaded')))
+        return f
+    if not raw_ok:
+        if describes:
+            f.append('options describe the files (%s-style, source %s) but generateIndex gave %s and the raw files %s' % (
+                c['style'], eff, r['gen'], raw.get('exc')))
+        return f
+    if c.get('update') and r.get('update') != 'ok':
+        f.append('updateIndex for new parameters: %s' % r.get('update'))
+    if ix['source'] != raw['source']:
+        f.append('metadata.json records source %s, the raw annotation under the same options has %s' % (ix['source'], raw['source']))
+    if c['option'] and ix['source'] != c['option']:
+        f.append('index built with --reference-source %s records source %s' % (c['option'], ix['source']))
+    for k in sorted(set(ix['tx']) | set(raw['tx'])):
+        a, b = ix['tx'].get(k), raw['tx'].get(k)
+        if a != b:
+            diff = [x for x in ('source', 'biotype', 'gene', 'exons', 'coding') if (a or {}).get(x) != (b or {}).get(x)]
+            f.append('transcript %s differs between index and raw files in %s: %s vs %s' % (
+                k, diff, {x: (a or {}).get(x) for x in diff}, {x: (b or {}).get(x) for x in diff}))
+            break
+    if ix['coding'] != raw['coding'] or ix['coding_file'] != raw['coding']:
+        f.append('coding transcripts: index %s / coding_transcripts.pkl %s / raw %s' % (ix['coding'], ix['coding_file'], raw['coding']))
+    if ix['proteome'] != raw['proteome']:
+        f.append('proteome loaded from the index differs from the raw FASTA parsed under the same options')
+    if ix['pool'] != raw['pool']:
+        f.append('canonical pool through the index (%d peptides) differs from the pool of the raw files under the same options (%d)' % (
+            len(ix['pool']), len(raw['pool'])))
+    if describes:
+        w = c['world']
+        bt = {t['id']: g['biotype'] for g in w['genes'] for t in g['transcripts']}
+        if ix['source'] != c['style']:
+            f.append('source recorded %s, the reference is %s' % (ix['source'], c['style']))
+        bad = [k for k, v in ix['tx'].items() if v['source'] != c['style'] or v['biotype'] != bt.get(k)]
+        if bad or set(ix['tx']) != set(bt):
+            k = (bad or ['-'])[0]
+            f.append('transcript %s loaded from the index: source %s biotype %s, the GTF says %s / %s' % (
+                k, ix['tx'].get(k, {}).get('source'), ix['tx'].get(k, {}).get('biotype'), c['style'], bt.get(k)))
+        if sorted(ix['coding']) != sorted(coding_ids(w)):
+            f.append('coding transcripts %s, ground truth %s' % (ix['coding'], sorted(coding_ids(w))))
+        D = Digests([w])
+        want = D.get(0, resolved(c['params']))
+        if dg(ix['pool']) != want:
+            f.append('pool through the index is not the canonical pool of the requested parameters on this reference')
+    return f
+
 def load_corpus():
     out = []
     for f in sorted(glob.glob(os.path.join(ROOT, 'corpus', 'C12', '*.json'))):
@@ -644,6 +752,7 @@ def run(ctx):
     n += run_ref(ctx, 60 if ctx.quick else 600, vio, stats)
     n += run_ver(ctx, worlds, real, vio, stats)
     n += run_fly(ctx, 40 if ctx.quick else 400, vio, stats)
+    n += run_src(ctx, 48 if ctx.quick else 480, vio, stats)
     violations = finish(vio)
     if not const_ok:
         violations.append({'what': 'regenerated index constants are not the ones the model understands (Gen/Version.v)',
@@ -659,7 +768,9 @@ def run(ctx):
                                                'version_stream_model_codes': stats['ver'],
                                                'ref_roundtrip': {'transcripts': stats['ref_tx'], 'coding': stats['ref_coding'],
                                                                  'worlds_by_proteome_edit': stats.get('ref_kinds', {})},
-                                               'pair_sequences': stats.get('pair_sequences', 0)},
+                                               'pair_sequences': stats.get('pair_sequences', 0),
+                                               'reference_source_cases': stats.get('src_cases', {}),
+                                               'reference_source_outcomes': stats.get('src_outcomes', {})},
                 disagreements=len(vio['disagree']), statement_failures=len(vio['fail']), violations=violations,
                 real_environment=real, minimal_version=minimal,
                 assumptions=['min_mw values are decimal literals (float equality of equal literals is exact); the digestion threshold is off the 1e-4 mass grid',
@@ -692,6 +803,13 @@ def replay(ctx, obj):
         want = {0: None, 1: 'InvalidIndexError', 2: 'ValueError'}[code]
         if want and any(v in ('ok', 'SystemExit:1') for v in res['consumers'].values()):
             vio['fail'].append((c, ['recorded version not rejected: %s' % res['consumers']]))
+    elif c['kind'] == 'src':
+        r = I.run_cases('c12', [c], jobs=1, tag='c12p')[0]
+        guess = 'GENCODE' if c['chrnames'] == 'chr' else 'ENSEMBL'
+        eff = c['option'] or guess
+        fails = src_failures(c, r, eff, eff == c['style'])
+        if fails:
+            vio['fail'].append((c, fails))
     elif c['kind'] in ('ref', 'fly'):
         class X: pass
         x = X(); x.rng = random.Random(0); x.jobs = 1
